@@ -228,14 +228,33 @@ def _batches(repo):
         while isinstance(cur, ast.If):
             n = branch_no(cur.test)
             ys = []
-            for st in cur.body:
-                for y in ast.walk(st):
-                    if isinstance(y, ast.Yield):
-                        ys.append(ast.unparse(y.value))
-                    if isinstance(y, ast.Assign) and ast.unparse(y.targets[0]) == 'd':
-                        ys.append('d=' + ast.unparse(y.value))
-                    if isinstance(y, ast.For):
-                        ys.append('for ' + ast.unparse(y.iter))
+
+            def render(stmts):
+                # source order, with every guard and loop a yield sits under
+                for st in stmts:
+                    if isinstance(st, ast.For):
+                        ys.append('for ' + ast.unparse(st.iter) + ' {')
+                        render(st.body)
+                        ys.append('}')
+                        if st.orelse:
+                            ys.append('for-else {')
+                            render(st.orelse)
+                            ys.append('}')
+                    elif isinstance(st, ast.If):
+                        ys.append('if ' + ast.unparse(st.test) + ' {')
+                        render(st.body)
+                        ys.append('}')
+                        if st.orelse:
+                            ys.append('else {')
+                            render(st.orelse)
+                            ys.append('}')
+                    elif isinstance(st, ast.Expr) and isinstance(st.value, ast.Yield):
+                        ys.append(ast.unparse(st.value.value))
+                    elif isinstance(st, ast.Assign) and ast.unparse(st.targets[0]) == 'd':
+                        ys.append('d=' + ast.unparse(st.value))
+                    else:
+                        ys.append('stmt ' + ast.unparse(st))
+            render(cur.body)
             if n is not None:
                 into.setdefault(n, []).extend(ys)
             cur = cur.orelse[0] if cur.orelse and isinstance(cur.orelse[0], ast.If) else None
@@ -265,7 +284,9 @@ def _(c):
         fixed, percat = _batches(repo)
         want_fixed = {1: ["'metadata/dtd'", "'metadata/glsa'", "'metadata/news'", "'metadata/xml-schema'", "'eclass'", "'licenses'", "'profiles'"],
                       2: ["'metadata/md5-cache'"], 3: ["'metadata'"], 4: ["'.'"]}
-        want_percat = {1: ["for glob.glob(os.path.join(c, '*/'))", 'd', "d=os.path.join('metadata/md5-cache', c)", 'd'], 2: ['c']}
+        want_percat = {1: ["for glob.glob(os.path.join(c, '*/')) {", 'd', '}', "d=os.path.join('metadata/md5-cache', c)",
+                           'if os.path.exists(d) {', 'd', '}'],
+                       2: ['if os.path.exists(c) {', 'c', '}']}
         return fixed == want_fixed and percat == want_percat, {'fixed': fixed, 'per-category': percat}
     c.const('four-batches-children-before-parents', batches_bottom_up)
 
